@@ -2,7 +2,9 @@
 mod common;
 mod core;
 mod corpus;
+mod blocks;
 mod coverage;
+mod graph;
 
 use crate::core::{Ann, Naming};
 
@@ -40,6 +42,8 @@ fn main() {
         }
         | "replay-coverage" => coverage::replay_coverage(&args[2], &args[3], &args[4]),
         | "replay-comatch" => coverage::replay_comatch(&args[2], &args[3]),
+        | "replay-graph" => graph::replay_graph(&args[2], &args[3]),
+        | "replay-blocks" => blocks::replay_blocks(&args[2], &args[3]),
         | "corpus-run" => {
             // zyconf corpus-run OUT MUTANTS_PER_FILE MAX_STEPS
             corpus::corpus_run(&args[2], args[3].parse().unwrap(), args[4].parse().unwrap());
